@@ -54,3 +54,67 @@ Definition tok_ok (g : graph) (t : tok) : bool :=
   | TUser u view pers _ _ => user_ok u view pers
   | _ => true
   end.
+
+(* ---------- the same clauses, property by property (what ./check <ID> evaluates on the implementation's tokens) ---------- *)
+Definition on_store (t : tok) (f : option record -> record -> bool) : bool :=
+  match t with TStore prev r _ => f prev r | _ => true end.
+Definition on_step_call (t : tok) (f : record -> option record -> bool) : bool :=
+  match t with TUser u view pers _ _ => if is_step_fn u then f view pers else true | _ => true end.
+
+Definition obj_clause (p r : record) : bool :=
+  obj_eqb (r_obj r) (r_obj p) || rs_eqb (r_state r) RSDataDeleted || (is_run_or_done (r_state r) && negb (rs_stopped (r_state p))).
+
+Definition mon_C16 (g : graph) (t : tok) : bool :=
+  on_store t (fun prev r =>
+    (r_desc r =? r_status r) &&
+    match prev with
+    | None => r_ver r =? 1
+    | Some p => same_id p r && (r_ver r =? r_ver p + 1) && (r_updated p <=? r_updated r) && obj_clause p r
+    end) &&
+  on_step_call t (fun view pers => match pers with Some p => obj_eqb (r_obj view) (r_obj p) | None => false end).
+
+Definition lc_clause (p r : record) : bool :=
+  lc (r_state p) (r_state r) || (rs_eqb (r_state p) (r_state r) && (rs_eqb (r_state p) RSRunning || rs_eqb (r_state p) RSDataDeleted)).
+
+Definition mon_C03 (g : graph) (t : tok) : bool :=
+  on_store t (fun prev r =>
+    implb (rs_eqb (r_state r) RSCompleted) (is_terminal g (r_status r)) &&
+    match prev with
+    | None => true
+    | Some p => lc_clause p r && implb (rs_finished (r_state p)) (rs_finished (r_state r)) &&
+                implb (negb (r_status r =? r_status p) && is_terminal g (r_status r)) (rs_eqb (r_state r) RSCompleted)
+    end).
+
+Definition mon_C02 (g : graph) (t : tok) : bool :=
+  on_store t (fun prev r =>
+    match prev with
+    | None => is_valid g (r_status r)
+    | Some p => (r_status r =? r_status p) || validate_transition g (r_status p) (r_status r)
+    end).
+
+Definition mon_C08 (g : graph) (t : tok) : bool :=
+  on_store t (fun prev r =>
+    match prev with
+    | Some p => implb (rs_stopped (r_state p))
+                      ((r_status r =? r_status p) && (obj_eqb (r_obj r) (r_obj p) || rs_eqb (r_state r) RSDataDeleted))
+    | None => true
+    end) &&
+  on_step_call t (fun _ pers => match pers with Some p => negb (rs_stopped (r_state p)) | None => false end).
+
+Definition mon_C09 (g : graph) (t : tok) : bool :=
+  on_store t (fun prev r =>
+    match prev with None => (r_ver r =? 1) && rs_eqb (r_state r) RSInitiated && is_valid g (r_status r) | Some _ => true end).
+
+Definition mon_C15 (g : graph) (t : tok) : bool :=
+  on_store t (fun prev r =>
+    match prev with
+    | Some p =>
+      implb (rs_eqb (r_state r) RSReqDataDeleted)
+            (rs_eqb (r_state p) RSCompleted || rs_eqb (r_state p) RSCancelled || rs_eqb (r_state p) RSDataDeleted) &&
+      implb (rs_eqb (r_state r) RSDataDeleted)
+            ((rs_eqb (r_state p) RSReqDataDeleted || rs_eqb (r_state p) RSDataDeleted) && (r_status r =? r_status p) && same_id p r)
+    | None => true
+    end).
+
+Definition mon_C04 (g : graph) (t : tok) : bool :=
+  on_step_call t (fun view pers => match pers with Some p => r_ver view =? r_ver p | None => false end).
